@@ -218,6 +218,9 @@ pub enum Mode {
     Sequential,
     Shuttle,
     Threads,
+    /// callers are real OS threads that run freely (the operating system schedules them);
+    /// only a fallback for executions the simulator cannot interleave (see exec.rs run_free)
+    Free,
 }
 
 static MODE: AtomicUsize = AtomicUsize::new(0);
@@ -225,13 +228,14 @@ static MODE: AtomicUsize = AtomicUsize::new(0);
 pub fn set_mode(m: Mode) {
     MODE.store(m as usize, Ordering::SeqCst);
     IN_SHUTTLE.store(m == Mode::Shuttle, Ordering::SeqCst);
-    state().in_shuttle = m != Mode::Sequential;
+    state().in_shuttle = m == Mode::Shuttle || m == Mode::Threads;
 }
 
 pub fn mode() -> Mode {
     match MODE.load(Ordering::SeqCst) {
         1 => Mode::Shuttle,
         2 => Mode::Threads,
+        3 => Mode::Free,
         _ => Mode::Sequential,
     }
 }
@@ -274,7 +278,7 @@ pub fn cur_task() -> usize {
             Some(t) => usize::from(t),
             None => 0,
         },
-        Mode::Threads => crate::threads::tid(),
+        Mode::Threads | Mode::Free => crate::threads::tid(),
         Mode::Sequential => SEQ_TASK.load(Ordering::SeqCst),
     }
 }
@@ -636,7 +640,7 @@ impl log::Log for SimLogger {
             match mode() {
                 Mode::Threads => crate::threads::sched_point(),
                 Mode::Shuttle => shuttle::thread::yield_now(),
-                Mode::Sequential => {}
+                Mode::Sequential | Mode::Free => {}
             }
         }
     }
